@@ -114,3 +114,18 @@ Definition chk_edges_observed (K : nat) (stranded : bool) (thr : nat) (reads seq
   let ga := graph_adjs K stranded seqs (E_list el) in
   let oa := observed_adjs K stranded thr reads in
   incl_dnab ga oa && incl_dnab oa ga.
+
+(* ---- pruned tables: tbl = (key, exts before); new = exts after remove_censored_exts(_sharded) *)
+Definition chk_pruned_with (stranded : bool) (keep : dna -> bool) (k : dna) (e e' : N) : bool :=
+  (e' <? 256)%N &&
+  forallb (fun d => forallb (fun b =>
+     Bool.eqb (e_has_ext e' (dirb d) b) (e_has_ext e (dirb d) b && keep (canon_s stranded (extend k b d)))) bases) sides.
+Definition chk_pruned (stranded : bool) (tbl : list (dna * N)) (new : list N) : bool :=
+  let keys := map fst tbl in
+  Nat.eqb (length new) (length tbl) &&
+  forallb (fun p => chk_pruned_with stranded (key_in keys) (fst (fst p)) (snd (fst p)) (snd p)) (combine tbl new).
+Definition chk_pruned_sharded (stranded : bool) (tbl : list (dna * N)) (all_kmers : list dna) (new : list N) : bool :=
+  let keys := map fst tbl in
+  Nat.eqb (length new) (length tbl) &&
+  forallb (fun p => chk_pruned_with stranded (fun x => key_in keys x || negb (key_in all_kmers x))
+                                    (fst (fst p)) (snd (fst p)) (snd p)) (combine tbl new).
